@@ -11,28 +11,66 @@ HERE = os.path.dirname(os.path.dirname(os.path.abspath(__file__)))
 sys.path.insert(0, HERE)
 
 
+ORIG_REV = "53532c1"
+
+
+def make_base(tmp, rev):
+    if rev == "WORKTREE":
+        shutil.copytree("/repo/netconan", os.path.join(tmp, "netconan"), ignore=shutil.ignore_patterns("__pycache__"))
+    else:
+        subprocess.check_call("git -C /repo archive %s netconan | tar -x -C %s" % (rev, tmp), shell=True)
+
+
+def run_all(files, pids):
+    from nc_static.main import run_check
+    res = {}
+    for pid in pids:
+        buf = io.StringIO()
+        code, rep = run_check(pid, files, "quick", 0, quiet=True, out=buf)
+        res[pid] = (code, sorted({v["key"] for v in rep.violations}) if code != 2 else buf.getvalue()[-300:])
+    return res
+
+
+_BASE = {}
+
+
+def baseline(rev, pids):
+    if rev not in _BASE:
+        from nc_static.source import read_tree
+        tmp = tempfile.mkdtemp(prefix="ncbase-")
+        try:
+            make_base(tmp, rev)
+            _BASE[rev] = run_all(read_tree(tmp), pids)
+        finally:
+            shutil.rmtree(tmp, ignore_errors=True)
+    return _BASE[rev]
+
+
 def one(args):
     seed_dir, pids = args
-    from nc_static.main import run_check, registry
     from nc_static.source import read_tree
-    tmp = tempfile.mkdtemp(prefix="ncseed-")
-    try:
-        shutil.copytree("/repo/netconan", os.path.join(tmp, "netconan"), ignore=shutil.ignore_patterns("__pycache__"))
-        r = subprocess.run(["git", "apply", "--whitespace=nowarn", os.path.join(seed_dir, "patch.diff")], cwd=tmp, capture_output=True, text=True)
-        if r.returncode != 0:
-            r = subprocess.run(["patch", "-p1", "-s", "-i", os.path.join(seed_dir, "patch.diff")], cwd=tmp, capture_output=True, text=True)
+    for rev in ("WORKTREE", ORIG_REV):
+        tmp = tempfile.mkdtemp(prefix="ncseed-")
+        try:
+            make_base(tmp, rev)
+            r = subprocess.run(["patch", "-p1", "-s", "--no-backup-if-mismatch", "-i", os.path.join(seed_dir, "patch.diff")], cwd=tmp, capture_output=True, text=True)
             if r.returncode != 0:
-                return seed_dir, {"_apply": "FAILED: " + r.stderr[:200]}
-        files = read_tree(tmp)
-        res = {}
-        for pid in pids:
-            buf = io.StringIO()
-            code, rep = run_check(pid, files, "quick", 0, quiet=True, out=buf)
-            keys = sorted({v["key"] for v in rep.violations})
-            res[pid] = (code, keys if code == 1 else (buf.getvalue()[-300:] if code == 2 else []))
-        return seed_dir, res
-    finally:
-        shutil.rmtree(tmp, ignore_errors=True)
+                continue
+            base = baseline(rev, pids)
+            got = run_all(read_tree(tmp), pids)
+            res = {"_base": rev}
+            for pid in pids:
+                code, keys = got[pid]
+                if code == 2:
+                    res[pid] = (2, keys)
+                else:
+                    bkeys = set(base[pid][1]) if base[pid][0] != 2 else set()
+                    new = [k for k in keys if k not in bkeys]
+                    res[pid] = (1 if new else 0, new)
+            return seed_dir, res
+        finally:
+            shutil.rmtree(tmp, ignore_errors=True)
+    return seed_dir, {"_apply": "FAILED on both the working tree and " + ORIG_REV}
 
 
 def main():
@@ -59,6 +97,7 @@ def main():
         seeds = [s for s in seeds if only in s]
     work = [(s, pids) for s in seeds]
     caught = 0
+    miss = 0
     with ProcessPoolExecutor(jobs) as ex:
         for seed_dir, res in ex.map(one, work):
             meta = {}
@@ -67,15 +106,16 @@ def main():
             except Exception:
                 pass
             target = meta.get("property", "?")
-            fired = {p: r for p, r in res.items() if p != "_apply" and r[0] == 1}
-            errs = {p: r for p, r in res.items() if p != "_apply" and r[0] == 2}
+            fired = {p: r for p, r in res.items() if not p.startswith("_") and r[0] == 1}
+            errs = {p: r for p, r in res.items() if not p.startswith("_") and r[0] == 2}
             own = target in fired
             caught += bool(fired)
-            print("%-28s target=%s  %s  fired=%s%s" % (os.path.relpath(seed_dir, root), target, "OWN" if own else ("other" if fired else "MISS"),
-                  {p: r[1][:3] for p, r in fired.items()}, ("  ERR=%s" % errs) if errs else ""), flush=True)
+            miss += (not own)
+            print("%-10s target=%s base=%-8s %s  fired=%s%s" % (os.path.relpath(seed_dir, root), target, res.get("_base", "?"), "OWN " if own else ("other" if fired else "MISS"),
+                  {p: [k.split("|")[0] for k in r[1][:3]] for p, r in sorted(fired.items(), key=lambda kv: kv[0] != target)}, ("  ERR=%s" % errs) if errs else ""), flush=True)
             if "_apply" in res:
                 print("    ", res["_apply"])
-    print("seeds: %d, caught by some check: %d" % (len(seeds), caught))
+    print("seeds: %d, caught by some check: %d, not caught by the OWN property's check: %d" % (len(seeds), caught, miss))
 
 
 if __name__ == "__main__":
